@@ -8,6 +8,7 @@ merger; root → image set) is re-extracted from the source on every run (`Gen/R
 -/
 import ToastyVerif.Gen.Range
 import ToastyVerif.Gen.Merge
+import ToastyVerif.Gen.Plumbing
 
 namespace C14
 
@@ -171,5 +172,9 @@ theorem plumbing : Gen.Range.save_explicit_else_array_range = true ∧ Gen.Range
 /-! non-vacuity: a node with an all-NaN leaf, a zero extreme and a missing quadrant -/
 example : hdr (fun _ => (some 99, some 99)) (.node (.leaf [3, 0, 7]) (.leaf []) (.leaf [5]) (.leaf [])) = some (some 0, some 7) := by
   decide
+
+/-- **entry_points**: the call sites through which this property's workflows reach the modelled functions have, in the source as
+it is now, the argument plumbing the model assumes (facts re-extracted on every run, `Gen/Plumbing.lean`) -/
+theorem entry_points : Gen.Plumbing.tile_toast_filters = true ∧ Gen.Plumbing.update_image_writes_back_plainly = true := by decide
 
 end C14
